@@ -119,7 +119,8 @@ def gen_plan(seed, tier="quick"):
         "p_switch": r.choice([0.0, 0.0, 0.02, 0.1, 0.5, 1.0]), "victim": r.choice([None, None, 0, n_jobs - 1]),
         "order": r.choice([None, None, "reverse", "shuffle"]), "sched_seed": r.randrange(1 << 30), "trace": None,
         "io_mode": r.random() < 0.4,          # pre-emption decisions only around lines that touch files / store into arrays
-        "delay": ({"tf": r.random(), "ef": r.random(), "where": r.choice(["end", "end", "start", "any"])} if r.random() < 0.4 else None),   # hold one chunk task at a file-touching line
+        "delay": ({"tf": r.random(), "ef": r.random(), "sf": r.random(), "occ": r.choice(["first", "first", "last", "any"]),
+                   "where": r.choice(["end", "start", "any", "site", "site", "site"])} if r.random() < 0.4 else None),   # hold one chunk task at a file-touching line
         # an earlier extraction in the same process on another probe geometry with the same channel count
         "prelude": r.choice([None, None] + [f for f in ("NP1", "NP21", "NP24") if f != fixture]),
         # history: an earlier extraction on this .cbin died while decompressing into the shared scratch directory
@@ -155,16 +156,6 @@ def run_plan(plan):
         return _run(plan, base)
     finally:
         rm_scratch(base)
-
-
-def _delay_at(d, cnt):
-    w = d.get("where", "any")
-    span = min(8, cnt)
-    if w == "end":
-        return cnt - 1 - int(d["ef"] * span)
-    if w == "start":
-        return int(d["ef"] * span)
-    return int(d["ef"] * cnt)
 
 
 def _neighbours(x, y, radius=200.0):
@@ -217,7 +208,7 @@ def _extract(plan, src, outdir, chunk, n_jobs, schedule, scratch):
         import traceback
         err = (e, traceback.format_exc())
     return {"err": err, "trace": [list(t) for t in SCHED.trace], "tasks": list(SCHED.task_log), "mm": list(SCHED.mm_writes),
-            "io_counts": dict(SCHED.io_counts)}
+            "io_counts": dict(SCHED.io_counts), "io_sites": {k: list(v) for k, v in SCHED.io_sites.items()}}
 
 
 def _real_joblib_extract(plan, src, outdir, scratch):
@@ -245,14 +236,14 @@ def _count_io(plan):
         base = new_scratch("c13cnt")
         try:
             res = _run(dict(plan, count_only=True), base)
-            report({"io_counts": {} if "digest" in res else res})
+            report({"io_sites": {} if "digest" in res else res})
         finally:
             rm_scratch(base)
 
     msgs, _ = run_child(child, timeout=600)
     for m in msgs:
-        if "io_counts" in m:
-            return {int(k): v for k, v in m["io_counts"].items()}
+        if "io_sites" in m:
+            return {int(k): v for k, v in m["io_sites"].items()}
     return {}
 
 
@@ -278,8 +269,7 @@ def sweep_plans(tier, verif_seed):
         p["spikes"] = [sp for sp in p["spikes"] if sp[0] < p["ns"] and sp[2] < p["nap"]]
         while p["ns"] / p["chunk"] > 8:
             p["chunk"] *= 2
-        counts = _count_io(p)
-        cand = [(t, e) for t in sorted(counts) for e in range(counts[t])]
+        cand = sched.hold_candidates(_count_io(p))
         if tier == "quick":
             cand = sorted(r.sample(cand, min(len(cand), 24)))
         elif len(cand) > 400:
@@ -334,7 +324,7 @@ def _run(plan, base):
             od = base / "out_cnt"
             od.mkdir()
             rp = _extract(plan, src, od, plan["chunk"], plan["n_jobs"], {"count_io": True}, base / "scratch")
-            return {} if rp["err"] else {t: c for t, c in rp["io_counts"].items() if c > 0}
+            return {} if rp["err"] else {t: c for t, c in rp["io_sites"].items() if c}
         for tag, chunk, n_jobs, schedule in (("ref", plan["chunk"] if pre else plan["chunk_ref"], 1, None),
                                              ("sim", plan["chunk"], plan["n_jobs"], {"seed": plan["sched_seed"], "p_switch": plan["p_switch"],
                                                                                    "victim": plan["victim"], "order": plan["order"], "trace": plan.get("trace"), "io_mode": plan.get("io_mode")})):
@@ -351,7 +341,7 @@ def _run(plan, base):
                 busy = sorted(t for t, c in rp["io_counts"].items() if c > 0)
                 if busy and not rp["err"]:
                     t = busy[min(len(busy) - 1, int(plan["delay"]["tf"] * len(busy)))]
-                    schedule = dict(schedule, delay={"task": t, "at": _delay_at(plan["delay"], rp["io_counts"][t])})
+                    schedule = dict(schedule, delay={"task": t, "at": sched.hold_index(plan["delay"], rp["io_sites"].get(t, []))})
                     probe("one_chunk_task_held_at_a_file_touching_line")
             res = _extract(plan, src, od, chunk, n_jobs, schedule, base / "scratch")
             stats["steps"] += sum(t[1] for t in res["trace"])
